@@ -266,3 +266,13 @@ for _c in list(_REG):
         _c2.prop = 'C09'
         _c2.name = 'C09/table.' + _c.name.split('/', 1)[1]
         _REG.append(_c2)
+
+# a socket created AFTER the link has terminated (never bound, state CLOSED): its calls must end as well
+for cls in ('LogicalDataLink', 'DataLinkConnection'):
+    F = lambda: sock(cls, addr=None, state=state(1), send_queue=Fixed([], 'deque'), recv_queue=Fixed([], 'deque'))  # noqa
+    for fn, args in (('sendto', dict(message=Bytes(0, 300), dest=Opt(SAP()), flags=Int(0, 1))),
+                     ('recvfrom', {}), ('connect', dict(dest=OneOf(Int(0, 63), Bytes(1, 40)))),
+                     ('bind', dict(addr_or_name=OneOf(None, Int(0, 70)))),
+                     ('poll', dict(event=OneOf('recv', 'send'), timeout=Opt(Const(0.1)))), ('close', {})):
+        contract(L + 'LogicalLinkController.' + fn, 'C09', dict(self=dead_llc(), socket=F(), **args),
+                 name='C09/after.%s[fresh %s]' % (fn, cls), raises=DOCARG, **AFTER)
